@@ -20,5 +20,7 @@ RULES = [
     ("C06.partition", lambda c, r: c09.rule_partition(c, r, "C06.partition")),
     # an updater that picked its bucket with the pre-shrink size must be out of its read-side section before that bucket goes
     ("C06.shrink", lambda c, r: lfht.rule_shrink(c, r, "C06.shrink")),
+    ("C06.addskel", lambda c, r: __import__("sa.rules.lfht2", fromlist=["x"]).rule_addskel(c, r, "C06.addskel")),
+    ("C06.entry", lambda c, r: __import__("sa.rules.lfht2", fromlist=["x"]).rule_entry(c, r, "C06.entry")),
 ]
 FLOORS = {}
